@@ -164,6 +164,8 @@ def classify(kind, trace_rows, verdict):
         cls = "key-in-use-differs-from-latched"
     if 0 < k <= len(polls) and polls[k - 1].get("errdoc") and "FailedPollChangesNothing" in broken:
         return {"broken": broken, "kind": "error-status-with-valid-document-applied"}
+    if 0 < k <= len(polls) and polls[k - 1].get("extras") and "State" in broken and "Rules" in broken:
+        return {"broken": broken, "kind": "document-with-unknown-members-not-followed"}
     if 0 < k <= len(polls) and polls[k - 1].get("slow"):
         return {"broken": broken, "kind": "slow-status-answer-not-followed"}
     if 0 < k <= len(polls):
